@@ -537,6 +537,12 @@ class Interp:
                     p2 = z3.IntVal(1 << top)
                     for k in range(top - 1, -1, -1):
                         p2 = z3.If(tb == k, z3.IntVal(1 << k), p2)
+                    if z3.is_int_value(ta) and ta.as_long() == 1:
+                        # remember that this term is the single bit 2**n: x | it and x & it stay in integer arithmetic
+                        if not hasattr(self, "_single_bits"):
+                            self._single_bits = {}
+                        self._single_bits[p2.get_id()] = (tb, top)
+                        return SInt(p2)
                     return SInt(ta * p2)
             raise Unsupported("shift by symbolic amount without a proved bound")
         if isinstance(op, ast.RShift):
@@ -559,6 +565,25 @@ class Interp:
             lowered = self._bitop_lia(op, ta, tb)
             if lowered is not None:
                 return SInt(lowered)
+            sb_ = getattr(self, "_single_bits", {})
+            for x, bit in ((ta, tb), (tb, ta)):
+                if bit.get_id() in sb_ and self._nonneg(x):
+                    # x op 2**n for a symbolic n in 0..top: a case table over n of the constant-bit case, each in
+                    # integer arithmetic: bit n of x is (x div 2**n) mod 2
+                    n_, top = sb_[bit.get_id()]
+
+                    def case(k):
+                        has = (x / (1 << k)) % 2
+                        if isinstance(op, ast.BitOr):
+                            return x + (1 << k) * (1 - has)
+                        if isinstance(op, ast.BitAnd):
+                            return (1 << k) * has
+                        return x + (1 << k) * (1 - 2 * has)
+
+                    acc = case(top)
+                    for k in range(top - 1, -1, -1):
+                        acc = z3.If(n_ == k, case(k), acc)
+                    return SInt(acc)
             w = self._int_width(ta, tb)
             if w is None:
                 raise Unsupported("bitwise operator on an integer without a proved non-negative range")
